@@ -1,3 +1,4 @@
+\* generated by spec/mkcfg.py
 SPECIFICATION MCSpec
 CONSTANTS
   Senders = {1, 2}
@@ -11,13 +12,16 @@ CONSTANTS
   MaxNet = 3
   DupBudget = 2
   LossBudget = 3
-  InjBudget = 2
+  InjBudget = 0
+  AdvReq = FALSE
+  GwFaultBudget = 0
   MaxEpoch = 3
   EnableHB = TRUE
-  EnableClose = TRUE
+  EnableClose = FALSE
   EnableG2C = TRUE
-  Adversary = TRUE
+  Adversary = FALSE
   UseTCP = FALSE
-  ChanUnderLock = TRUE
-INVARIANTS TypeOK OneInFlight MutexHeld ObsQuiet
+  ChanUnderLock = FALSE
+  AckChanCheck = TRUE
+INVARIANTS ObsQuiet
 CHECK_DEADLOCK FALSE
